@@ -24,12 +24,12 @@ var handlers = map[string]handler{}
 func register(name string, h handler) { handlers[name] = h }
 
 type sess struct {
-	out  *bufio.Writer
-	root string // private scratch directory of this run
-	dir  string // directory of the current case
+	out   *bufio.Writer
+	root  string // private scratch directory of this run
+	dir   string // directory of the current case
 	caseN int
-	st   map[string]interface{}
-	t0   int64 // wall clock (Unix seconds) at the start of the current case
+	st    map[string]interface{}
+	t0    int64 // wall clock (Unix seconds) at the start of the current case
 }
 
 func (s *sess) obs(format string, a ...interface{}) {
